@@ -76,6 +76,25 @@ def run(rep):
         done += len(cs)
         nbad += evaluate(rep, cs)
     rep.extra["corpus_cases"] = ncorp
+    if rep.tier == "thorough" and nbad == 0:
+        # small-scope exhaustive enumeration (additional correspondence, not the proof): every parent value of <= 3 nodes
+        # under key `a` against every child value of <= 3 nodes over atoms and ALL override directives as keys,
+        # plus a random tenth of the <= 4 node children
+        D = gen.enum_trees(3, [1, "x"], ["b"])
+        atoms = [1, "x", "$delete", "$replace", True, None]
+        keys = ["b", "$match", "$delete", "$value", "$replace"]
+        P3 = gen.enum_trees(3, atoms, keys)
+        P4 = [t for t in gen.enum_trees(4, atoms, keys) if gen.size(t) == 4]
+        rng2 = random.Random(rep.seed + 5)
+        P4 = rng2.sample(P4, min(len(P4), 4000))
+        pairs = [(d, s) for d in D for s in P3] + [(d, s) for d in D for s in P4]
+        rep.extra["exhaustive_pairs"] = len(D) * len(P3)
+        rep.extra["sampled_4node_pairs"] = len(D) * len(P4)
+        for i in range(0, len(pairs), 40000):
+            cs = [chain_case([{"a": d, "k": 1}, {"a": s}], tail=("docs", "alias", "outdocs")) for d, s in pairs[i:i + 40000]]
+            nbad += evaluate(rep, cs, shrink_budget=40)
+            if nbad:
+                break
     alias_verdict(rep)
     if rep.broken and not rep.violations:
         # a proof obligation broke but no failing input was found: extra targeted budget, then report
